@@ -148,6 +148,7 @@ func nextMSetArguments(cmd string, args Arguments) (map[string]string, error) {
 
 func nextSetOptionArguments(cmd string, args Arguments) (SetOption, error) {
 	opt := newDefaultSetOption()
+	hasExpire := false
 	for {
 		argStr, err := args.NextString()
 		if err != nil {
@@ -170,9 +171,10 @@ func nextSetOptionArguments(cmd string, args Arguments) (SetOption, error) {
 			}
 			opt.XX = true
 		case "EX", "PX", "EXAT", "PXAT":
-			if opt.EX > 0 || opt.PX > 0 || !opt.EXAT.IsZero() || !opt.PXAT.IsZero() {
+			if hasExpire {
 				return opt, newInvalidArgumentError(cmd, argStr, fmt.Errorf(errorUseOnlyOnce, "EX|PX|EXAT|PXAT"))
 			}
+			hasExpire = true
 			argInt, err := args.NextInteger()
 			if err != nil {
 				if errors.Is(err, proto.ErrEOM) {
